@@ -1,7 +1,7 @@
 """Shared skeleton for history-type properties (C02, C04, C05, C11): one session, a stream of
 operations (generated online or replayed from a concrete list), an oracle object with hooks.
 """
-from ..sim.bench import Session, ShapeChanged, digest_events
+from ..sim.bench import Session, ShapeChanged, digest_events, raised_in_sut
 from ..sim.gen import Gen
 from .common import ExecBase, Violation, transition_key
 
@@ -69,6 +69,12 @@ def run_history(world, opsource, oracle_cls, device=None, max_records=5000):
             orc.fail(f"{orc.PROP}.shape", i, op, "ok",
                      f"Labware.volumes of labware {e.args[0]} has shape {e.args[1]}, not (real rows, columns)")
             break
+        except Exception as e:  # noqa
+            if not raised_in_sut(e):
+                raise
+            orc.fail(f"{orc.PROP}.observe", i, op, "ok",
+                     f"observing the labware/worklist after {op['op']} raised {type(e).__name__} inside robotools")
+            break
         if orc.stop or len(sess.wl) > max_records:
             break
         i += 1
@@ -76,6 +82,11 @@ def run_history(world, opsource, oracle_cls, device=None, max_records=5000):
         orc.finish()
     except ShapeChanged:
         pass
+    except Exception as e:  # noqa
+        if not raised_in_sut(e):
+            raise
+        orc.fail(f"{orc.PROP}.observe", len(res.ops) - 1, res.ops[-1] if res.ops else None, "ok",
+                 f"observing the labware at the end of the run raised {type(e).__name__} inside robotools")
     res.events = sess.events
     res.digest = digest_events(sess.events)
     for v in res.violations:
